@@ -39,7 +39,8 @@ namespace {
         M_MUTEX = 7,
         M_TIMED_CV = 8,     // condition_variable::wait_for(pred) with a far deadline: the waiter yields (boosted) instead of suspending
         M_TIMED_SEM = 9,    // counting_semaphore::try_acquire_for with a far deadline
-        M_COUNT = 10
+        M_RAW_ABORT = 10,   // raw suspend woken with restart reason "abort" first (the waiter survives it), then a normal wait
+        M_COUNT = 11
     };
 
     struct Pair
@@ -66,6 +67,7 @@ namespace {
         bool target_registered = false;
         // additional waiters on the same latch / semaphore (one wake-up operation has to release them all)
         int co_waiters = 0, co_registered = 0, co_resumed = 0;
+        bool abort_registered = false, aborted = false;    // M_RAW_ABORT
     };
     std::vector<std::unique_ptr<Pair>> pairs;
 
@@ -106,6 +108,27 @@ namespace {
             p.ctx.suspend("C02 raw suspend");
             resumed_check(p, idx, false);
             break;
+        case M_RAW_ABORT:
+        {
+            p.ctx = pika::execution::this_thread::detail::agent();
+            p.abort_registered = true;
+            try
+            {
+                p.ctx.suspend("C02 raw suspend, to be aborted");
+                VH_CHECK(false, "C02.spurious_resume", "waiter %d: a suspend that is only ever aborted returned normally", idx);
+            }
+            catch (pika::exception const& e)
+            {
+                VH_CHECK(e.get_error() == pika::error::yield_aborted, "C02.harness", "waiter %d: unexpected error %d", idx, (int) e.get_error());
+                p.aborted = true;
+                probe("waiter_survived_abort");
+            }
+            p.registered = true;
+            ev(1, idx, p.mech);
+            p.ctx.suspend("C02 raw suspend after an abort");
+            resumed_check(p, idx, false);
+            break;
+        }
         case M_CV:
         {
             std::unique_lock<pika::mutex> l(p.mtx);
@@ -236,6 +259,12 @@ namespace {
             p.wake_returned = true;
             return;
         }
+        if (p.mech == M_RAW_ABORT)
+        {
+            while (!p.abort_registered) poll_pause(os);
+            yield_here(os, p.waker_delay & 1);
+            p.ctx.abort("C02 raw abort");
+        }
         while (!p.registered || p.co_registered < p.co_waiters) poll_pause(os);
         yield_here(os, p.waker_delay);
         p.wake_invoked = true;
@@ -243,6 +272,7 @@ namespace {
         ev(3, idx, p.mech);
         switch (p.mech)
         {
+        case M_RAW_ABORT:
         case M_RAW:
             p.ctx.resume("C02 raw resume");
             break;
